@@ -34,6 +34,8 @@ class St:
     def assume(self, c):
         if c == T.TRUE:
             return self
+        if c != T.FALSE and isinstance(c, tuple) and c and c[0] in ("cmp", "not", "call") and T.lnot(c) in self.conds:
+            return self.fork(conds=self.conds + (c, T.FALSE))      # c and not(c): the path is infeasible
         return self.fork(conds=self.conds + (c,))
 
     def effect(self, e):
@@ -219,6 +221,19 @@ class Evaluator:
             m = re.match(r"^\[(\w+); ", n["ty"])
             w = self.bits(m.group(1)) if m else 8
             return [(("array", tuple(T.K(w, x) for x in v)), st)]
+        # a constant whose value is not a plain integer / integer array (tables of strings, struct constants):
+        # evaluate its initialiser expression
+        c = (self.F.consts or {}).get(p) if hasattr(self.F, "consts") else None
+        th = c.get("thir") if isinstance(c, dict) else None
+        if th and th.get("body") and getattr(self, "_const_depth", 0) < 4:
+            self._const_depth = getattr(self, "_const_depth", 0) + 1
+            try:
+                outs = self.ev(th["body"], St(), "const:" + p)
+            finally:
+                self._const_depth -= 1
+            outs = [(v, s2) for v, s2 in outs if s2.feasible and s2.exit is None and not s2.unrec]
+            if len(outs) == 1 and isinstance(outs[0][0], tuple) and outs[0][0] and outs[0][0][0] in ("array", "struct", "lit", "tuple"):
+                return [(outs[0][0], st)]
         return [(("obj", "const:" + p, n["ty"]), st)]
 
     def ev_zst(self, n, st, fp):
@@ -349,19 +364,24 @@ class Evaluator:
         """loops are not unrolled: variables assigned in the body become fresh symbols and the loop
         is recorded as an effect (callers that care evaluate the body separately)"""
         from facts import walk
-        if self.unroll:
+        if self.unroll or self._over_concrete_iterator(n, st, fp):
             # concretely evaluable loops (iteration over constant containers): explore every path,
             # forking where the body forks, up to a bound; otherwise fall through to the summary
             done, work, evals, ok = [], [(st, 0)], 0, True
             while work and ok:
                 cur, depth = work.pop()
                 evals += 1
-                if evals > 600 or depth > 400:
+                if evals > 300 or depth > 64:
                     ok = False
                     break
                 outs = [(v, s2) for v, s2 in self.ev(n["body"], cur, fp) if s2.feasible]
                 if not outs:
                     ok = False
+                    break
+                goes = any(s2.exit is None or s2.exit[0] == "continue" for _v, s2 in outs)
+                stops = any(s2.exit is not None and s2.exit[0] == "break" for _v, s2 in outs)
+                if goes and stops:
+                    ok = False          # the loop control itself is symbolic (e.g. an iterator we have no model for)
                     break
                 for _v, s2 in outs:
                     if s2.exit is None or s2.exit[0] == "continue":
@@ -385,6 +405,26 @@ class Evaluator:
                     w = _w(cur) if isinstance(cur, tuple) and cur else self.bits(l.get("ty"))
                     st = st.set(key, T.V(l["name"] + "'", w) if w else ("obj", l["name"] + "'", l.get("ty")))
         return [(UNIT, st.effect(("loop", n.get("line"))))]
+
+    def _over_concrete_iterator(self, n, st, fp):
+        """is this the loop of a desugared `for` whose iterator currently holds a concrete sequence (a constant range,
+        a literal array)?  Those are unrolled in every mode: their trip count is a constant of the source."""
+        from facts import walk, callee_path
+        owner = self.owner_of(fp)
+        for c in walk(n["body"]):
+            if c.get("k") == "call" and re.search(r"(iter::Iterator>?::next|Iterator for [^ ]*>::next|DoubleEndedIterator>?::next_back)$", callee_path(c) or ""):
+                for x in walk(c.get("args") or []):
+                    if x.get("k") in ("var", "upvar"):
+                        v = st.env.get((owner, x.get("id")))
+                        if isinstance(v, tuple) and v and v[0] == "ref":
+                            try:
+                                v = self.read_place(v[1], st)
+                            except Exception:
+                                v = None
+                        if isinstance(v, tuple) and v and v[0] == "iterc" and len(v[1]) <= 64:
+                            return True
+                return False
+        return False
 
     # ---------------------------------------------------------------- conditions
     def ev_cond(self, n, st, fp):
@@ -559,6 +599,42 @@ class Evaluator:
             for sp in p["subs"]:
                 fv = self.field_of(v, sp["field"], sp["pat"]["ty"])
                 r = self.bind_pat(sp["pat"], fv, st, fp)
+                if r is None:
+                    return None
+                cond = T.land(cond, r[0])
+                st = r[1]
+            return cond, st
+        if k == "slice":
+            # slice / array pattern: on a concrete sequence the length test folds and the elements are bound;
+            # on a symbolic slice the length test is a condition on len and elements are selected by index
+            pre, suf, rest = p["prefix"], p["suffix"], p.get("rest")
+            need = len(pre) + len(suf)
+            if isinstance(v, tuple) and v and v[0] == "array":
+                items = v[1]
+                if (rest is None and len(items) != need) or len(items) < need:
+                    return T.FALSE, st
+                cond = T.TRUE
+                pairs = list(zip(pre, items[:len(pre)])) + (list(zip(suf, items[len(items) - len(suf):])) if suf else [])
+                for q, x in pairs:
+                    r = self.bind_pat(q, x, st, fp)
+                    if r is None:
+                        return None
+                    cond = T.land(cond, r[0])
+                    st = r[1]
+                if rest is not None:
+                    r = self.bind_pat(rest, ("array", tuple(items[len(pre):len(items) - len(suf)])), st, fp)
+                    if r is None:
+                        return None
+                    cond = T.land(cond, r[0])
+                    st = r[1]
+                return cond, st
+            if suf or (rest is not None and rest.get("k") != "wild"):
+                return None
+            elty = re.sub(r"^\[(.*?)(; .*)?\]$", r"\1", p.get("ty") or "")
+            ln = ("call", "len", (v,), 64)
+            cond = T.TRUE if p.get("fixed") else (T.cmp("eq", 64, ln, T.K(64, need)) if rest is None else T.cmp("ule", 64, T.K(64, need), ln))
+            for i, q in enumerate(pre):
+                r = self.bind_pat(q, self.index_of(v, T.K(64, i), q.get("ty") or elty), st, fp)
                 if r is None:
                     return None
                 cond = T.land(cond, r[0])
@@ -909,6 +985,10 @@ class Evaluator:
 
     def call_value(self, fv, vals, n, s, fp):
         if isinstance(fv, tuple) and fv and fv[0] == "clo":
+            if self.opaque_calls(fv[1]):
+                w = self.bits(n["ty"])
+                res = ("call", fv[1], tuple(vals), w, self.fresh()) if w else ("obj", "%s#%d" % (_short_path(fv[1]), self.fresh()), n["ty"])
+                return [(res, s.effect(("call", fv[1], tuple(vals), res)))]
             return self.inline_fn(fv[1], vals, n, s)
         if isinstance(fv, tuple) and fv and fv[0] == "fnitem":
             return self.call_path(fv[1], fv[1], list(fv[2]), vals, n, s, fp)
@@ -926,6 +1006,10 @@ class Evaluator:
             if isinstance(f, tuple) and f and f[0] == "clo":
                 args = vals[1]
                 items = [v for _, v in args[3]] if isinstance(args, tuple) and args and args[0] == "struct" else ([] if args == UNIT else [args])
+                if self.opaque_calls(f[1]):
+                    w = self.bits(n["ty"])
+                    res = ("call", f[1], tuple(items), w, self.fresh()) if w else ("obj", "%s#%d" % (_short_path(f[1]), self.fresh()), n["ty"])
+                    return [(res, s.effect(("call", f[1], tuple(items), res)))]
                 return self.inline_fn(f[1], items, n, s)
             if isinstance(f, tuple) and f and f[0] == "fnitem":
                 args = vals[1]
@@ -1079,10 +1163,33 @@ def m_int(ev, vals, n, s, path, gens):
         return [(a if w == 8 else T.bswap(w, a), s)]
     if meth == "is_multiple_of" and b is not None:
         return [(T.cmp("eq", w, T.op("urem", w, a, b), T.K(w, 0)), s)]
+    if meth == "checked_ilog" and b is not None and T.is_k(b) and b[2] >= 2 and not signed:
+        z = T.cmp("eq", w, a, T.K(w, 0))
+        lg = ("call", "core::num::<impl %s>::ilog" % ty, (a, b), 32)
+        return [(NONE, s.assume(z)), (some(lg), s.assume(T.lnot(z)))]
+    if meth in ("checked_ilog2", "checked_ilog10") and not signed:
+        z = T.cmp("eq", w, a, T.K(w, 0))
+        lg = ("call", "core::num::<impl %s>::%s" % (ty, meth[8:]), (a,), 32)
+        return [(NONE, s.assume(z)), (some(lg), s.assume(T.lnot(z)))]
+    if meth in ("checked_div", "checked_rem") and b is not None and not signed and _w(b) == w:
+        z = T.cmp("eq", w, b, T.K(w, 0))
+        return [(NONE, s.assume(z)), (some(T.op("udiv" if meth == "checked_div" else "urem", w, a, b)), s.assume(T.lnot(z)))]
+    if meth == "checked_sub" and b is not None and not signed and _w(b) == w:
+        lt = T.cmp("ult", w, a, b)
+        return [(NONE, s.assume(lt)), (some(T.op("sub", w, a, b)), s.assume(T.lnot(lt)))]
     if meth == "checked_add" and b is not None:
         sm = T.op("add", w, a, b)
         ovf = T.cmp("ult", w, sm, a) if not signed else ("call", "overflows_add_s", (a, b), 1)
         return [(NONE, s.assume(ovf)), (some(sm), s.assume(T.lnot(ovf)))]
+    if meth in ("to_le_bytes", "to_ne_bytes", "to_be_bytes"):
+        bs = [T.trunc(8, T.shift("lshr", w, a, T.K(w, 8 * i))) if i else T.trunc(8, a) for i in range(w // 8)]
+        return [(("array", tuple(bs[::-1] if meth == "to_be_bytes" else bs)), s)]      # little-endian target (recorded assumption)
+    if meth == "unsigned_abs" and signed:
+        neg_ = T.cmp("slt", w, a, T.K(w, 0))
+        return [(a, s.assume(T.lnot(neg_))), (T.neg(w, a), s.assume(neg_))]
+    if meth == "abs_diff" and b is not None and not signed and _w(b) == w:
+        lt = T.cmp("ult", w, a, b)
+        return [(T.op("sub", w, a, b), s.assume(T.lnot(lt))), (T.op("sub", w, b, a), s.assume(lt))]
     if meth in ("max", "min") and b is not None:
         c = T.cmp("ult" if not signed else "slt", w, a, b)
         return [(T.ite(c, b, a) if meth == "max" else T.ite(c, a, b), s)]
@@ -1094,7 +1201,15 @@ def m_get_insn(ev, vals, n, s, path, gens):
     idx = vals[1]
     prog = vals[0]
     flds = [("opc", 8), ("dst", 8), ("src", 8), ("off", 16), ("imm", 32)]
-    ov = getattr(ev, "insn_override", None) or {}
+    ov = dict(getattr(ev, "insn_override", None) or {})
+    # the opcode under analysis is forced for the instruction the iteration fetches first (the current one), not for
+    # a later fetch of a neighbouring slot (second half of a wide load)
+    cur = ov.pop("opc@current", None)
+    if cur is not None:
+        if getattr(ev, "_cur_insn_idx", None) is None:
+            ev._cur_insn_idx = idx
+        if ev._cur_insn_idx == idx:
+            ov["opc"] = cur
     return [(struct("ebpf::Insn", "Insn", [(f, ov.get(f, ("v", ("insn", idx, f), w))) for f, w in flds]),
              s.effect(("get_insn", prog, idx)))]
 
@@ -1299,6 +1414,40 @@ def m_from_int(ev, vals, n, s, path, gens):
     return [(T.cast(vals[0], m.group(1), m.group(2)), s)]
 
 
+@suffix_model(r"^core::convert::num::<impl core::convert::TryFrom<([iu](?:8|16|32|64|128|size))> for ([iu](?:8|16|32|64|128|size))>::try_from$")
+def m_try_from_int(ev, vals, n, s, path, gens):
+    """checked integer conversion: Ok(converted) exactly when the value is representable in the target type"""
+    m = re.search(r"TryFrom<(\w+)> for (\w+)>", path)
+    src, dst = m.group(1), m.group(2)
+    (w1, s1), (w2, s2) = T.ty_info(src), T.ty_info(dst)
+    x = vals[0]
+    if _w(x) != w1:
+        return None
+    y = T.cast(x, src, dst)
+    conds = []
+    if s1 == s2:
+        if w2 < w1:
+            conds.append(T.cmp("eq", w1, x, T.cast(y, dst, src)))
+    elif not s1 and s2:
+        if w2 <= w1:
+            conds.append(T.cmp("ult", w1, x, T.K(w1, 1 << (w2 - 1))))
+    else:
+        conds.append(T.cmp("sle", w1, T.K(w1, 0), x))
+        if w2 < w1:
+            conds.append(T.cmp("ult", w1, x, T.K(w1, 1 << w2)))
+    good = T.TRUE
+    for c in conds:
+        good = T.land(good, c)
+    R = "core::result::Result"
+    out = [(struct(R, "Ok", (("0", y),)), s.assume(good))]
+    if good != T.TRUE:
+        out.append((struct(R, "Err", (("0", ("obj", "TryFromIntError", "core::num::TryFromIntError")),)), s.assume(T.lnot(good))))
+    return [(v, st) for v, st in out if st.feasible]
+
+
+SUFFIX_MODELS.insert(0, SUFFIX_MODELS.pop())
+
+
 @suffix_model(r"^core::fmt::|^core::io::Error::(other|new)$|^core::fmt::format$|no_std_error::Error::(other|new)$|^core::string::ToString|::to_string$|^log::")
 def m_fmt(ev, vals, n, s, path, gens):
     if path.endswith("Error::other") or path.endswith("Error::new"):
@@ -1387,7 +1536,27 @@ def m_into_iter_array(ev, vals, n, s, path, gens):
         a, b = sfield(v, "start"), sfield(v, "end")
         if T.is_k(a) and T.is_k(b) and b[2] - a[2] <= 400:
             return [(("iterc", tuple(T.K(a[1], i) for i in range(a[2], b[2])), 0), s)]
+    if isinstance(v, tuple) and v and v[0] == "struct" and v[1].endswith("ops::RangeInclusive"):
+        a, b = sfield(v, "start"), sfield(v, "end")
+        if T.is_k(a) and T.is_k(b) and b[2] - a[2] <= 400:
+            return [(("iterc", tuple(T.K(a[1], i) for i in range(a[2], b[2] + 1)), 0), s)]
     return [(v, s)]
+
+
+SUFFIX_MODELS.insert(0, SUFFIX_MODELS.pop())   # takes precedence over the generic into_iter identity
+
+
+@suffix_model(r"iter::Iterator::rev$|iter::Iterator>::rev$")
+def m_iter_rev(ev, vals, n, s, path, gens):
+    v = ev.deref_val(vals[0], s)
+    if isinstance(v, tuple) and v and v[0] == "struct" and (v[1].endswith("ops::Range") or v[1].endswith("ops::RangeInclusive")):
+        r = m_into_iter_array(ev, [v], n, s, path, gens)
+        v = r[0][0] if r else v
+    if isinstance(v, tuple) and v and v[0] == "array":
+        v = ("iterc", v[1], 0)
+    if isinstance(v, tuple) and v and v[0] == "iterc" and v[2] == 0:
+        return [(("iterc", tuple(reversed(v[1])), 0), s)]
+    return None
 
 
 SUFFIX_MODELS.insert(0, SUFFIX_MODELS.pop())   # takes precedence over the generic into_iter identity
@@ -1417,7 +1586,7 @@ def m_iter_next(ev, n, st, fp, path, gens):
 
 
 m_iter_next.wants_nodes = True
-SUFFIX_MODELS.insert(0, (re.compile(r"iter::Iterator>::next$|iter::Iterator::next$"), m_iter_next))
+SUFFIX_MODELS.insert(0, (re.compile(r"iter::Iterator>::next$|iter::Iterator::next$|Iterator for [^ ]*>::next$"), m_iter_next))
 
 
 @suffix_model(r"vec::Vec<T, A> as core::ops::Deref>::deref$|vec::Vec<T, A>::as_slice$|vec::Vec<T, A> as core::convert::AsRef<\[T\]>>::as_ref$")
@@ -1446,24 +1615,95 @@ def m_concrete_index(ev, vals, n, s, path, gens):
 SUFFIX_MODELS.insert(0, SUFFIX_MODELS.pop())
 
 
+def _apply(ev, f, args, n, s, ret_ty=None):
+    """call a function value (closure, fn item, or a symbolic fn pointer) from inside a combinator model"""
+    if isinstance(f, tuple) and f and f[0] == "clo":
+        return ev.inline_fn(f[1], list(args), n, s)
+    if isinstance(f, tuple) and f and f[0] == "fnitem":
+        return ev.call_path(f[1], f[1], list(f[2]), list(args), n, s, None)
+    if isinstance(f, tuple) and f:
+        w = ev.bits(ret_ty) if ret_ty else 0
+        res = ("call", "indirect", (f,) + tuple(args), w, ev.fresh()) if w else ("obj", "indirect#%d" % ev.fresh(), ret_ty or "?")
+        return [(res, s.effect(("call", "indirect", f, tuple(args))))]
+    return None
+
+
+def _symbolic_option(ev, o, vals, n, s, path):
+    """Option combinators on a symbolic option: fork on the same `is_Some` test and payload a `match` would use"""
+    meth = path.rsplit("::", 1)[1]
+    if meth not in ("ok_or", "ok_or_else", "map", "map_or", "map_or_else", "and_then", "unwrap_or", "unwrap_or_else", "is_some", "is_none"):
+        return None
+    if not isinstance(o, tuple) or not o or o[0] == "struct":
+        return None
+    rty = (strip_node(n["args"][0]).get("ty") or "") if n.get("args") else ""
+    m = re.match(r"^&?(?:mut )?(?:std|core)::option::Option<(.*)>$", rty)
+    if not m:
+        return None
+    cond = ("call", "is_Some", (o,), 1)
+    x = ev.payload(o, "Some", "0", m.group(1))
+    R = "core::result::Result"
+    s_some, s_none = s.assume(cond), s.assume(T.lnot(cond))
+
+    def call(f, args, st):
+        return _apply(ev, f, args, n, st, n.get("ty") if meth in ("map_or", "map_or_else", "and_then", "unwrap_or_else") else None)
+    if meth == "map_or":
+        r = call(vals[2], [x], s_some)
+        return None if r is None else list(r) + [(vals[1], s_none)]
+    if meth == "map_or_else":
+        r, r0 = call(vals[2], [x], s_some), call(vals[1], [], s_none)
+        return None if r is None or r0 is None else list(r) + list(r0)
+    if meth == "is_some":
+        return [(cond, s)]
+    if meth == "is_none":
+        return [(T.lnot(cond), s)]
+    if meth == "ok_or":
+        return [(struct(R, "Ok", (("0", x),)), s_some), (struct(R, "Err", (("0", vals[1]),)), s_none)]
+    if meth == "ok_or_else":
+        r = call(vals[1], [], s_none)
+        if r is None:
+            return None
+        return [(struct(R, "Ok", (("0", x),)), s_some)] + [(struct(R, "Err", (("0", v),)), st) for v, st in r]
+    if meth == "unwrap_or":
+        return [(x, s_some), (vals[1], s_none)]
+    if meth == "unwrap_or_else":
+        r = call(vals[1], [], s_none)
+        return None if r is None else [(x, s_some)] + list(r)
+    if meth == "map":
+        r = call(vals[1], [x], s_some)
+        return None if r is None else [(some(v), st) for v, st in r] + [(NONE, s_none)]
+    if meth == "and_then":
+        r = call(vals[1], [x], s_some)
+        return None if r is None else list(r) + [(NONE, s_none)]
+    return None
+
+
 def _is_opt(v):
     return isinstance(v, tuple) and len(v) > 3 and v[0] == "struct" and v[1].endswith("option::Option") and v[2] in ("Some", "None")
 
 
-@suffix_model(r"option::Option<T>::(or_else|or|map|and_then|unwrap_or|unwrap_or_else|copied|cloned|ok_or|ok_or_else|is_some|is_none)$")
+@suffix_model(r"option::Option<T>::(or_else|or|map|map_or|map_or_else|and_then|unwrap_or|unwrap_or_else|copied|cloned|ok_or|ok_or_else|is_some|is_none)$|option::Option<core::result::Result<T, E>>::transpose$")
 def m_option_combinators(ev, vals, n, s, path, gens):
     """Option combinators on a value whose variant is known (constant folding of table look-ups)"""
     o = ev.deref_val(vals[0], s)
     if not _is_opt(o):
-        return None
+        return _symbolic_option(ev, o, vals, n, s, path)
     meth = path.rsplit("::", 1)[1]
     is_some = o[2] == "Some"
     x = o[3][0][1] if is_some else None
 
     def call(f, args):
-        if isinstance(f, tuple) and f and f[0] == "clo":
-            return ev.inline_fn(f[1], list(args), n, s)
+        return _apply(ev, f, args, n, s, n.get("ty"))
+    if meth == "transpose":
+        R_ = "core::result::Result"
+        if not is_some:
+            return [(struct(R_, "Ok", (("0", NONE),)), s)]
+        if _is_res(x):
+            return [(struct(R_, "Ok", (("0", some(x[3][0][1])),)) if x[2] == "Ok" else x, s)]
         return None
+    if meth == "map_or":
+        return call(vals[2], [x]) if is_some else [(vals[1], s)]
+    if meth == "map_or_else":
+        return call(vals[2], [x]) if is_some else call(vals[1], [])
     if meth == "is_some":
         return [(T.TRUE if is_some else T.FALSE, s)]
     if meth == "is_none":
@@ -1492,6 +1732,86 @@ def m_option_combinators(ev, vals, n, s, path, gens):
             return [(struct("core::result::Result", "Ok", (("0", x),)), s)]
         r = call(vals[1], [])
         return None if r is None else [(struct("core::result::Result", "Err", (("0", v),)), st) for v, st in r]
+    return None
+
+
+SUFFIX_MODELS.insert(0, SUFFIX_MODELS.pop())
+
+
+def _struct_eq(a, b):
+    """structural equality of two values built from known variants and bit-vector leaves -> condition term or None"""
+    if isinstance(a, tuple) and isinstance(b, tuple) and a and b and a[0] == "struct" and b[0] == "struct":
+        if a[2] != b[2]:
+            return T.FALSE
+        fa, fb = dict(a[3]), dict(b[3])
+        if set(fa) != set(fb):
+            return None
+        c = T.TRUE
+        for k in fa:
+            e = _struct_eq(fa[k], fb[k])
+            if e is None:
+                return None
+            c = T.land(c, e)
+        return c
+    if _w(a) and _w(a) == _w(b):
+        return T.cmp("eq", _w(a), a, b)
+    return None
+
+
+@suffix_model(r"option::Option<T> as core::cmp::PartialEq>::(eq|ne)$|result::Result<T, E> as core::cmp::PartialEq>::(eq|ne)$")
+def m_enum_eq(ev, vals, n, s, path, gens):
+    a, b = ev.deref_val(vals[0], s), ev.deref_val(vals[1], s)
+    c = _struct_eq(a, b)
+    if c is None:
+        return None
+    return [(T.lnot(c) if path.endswith("::ne") else c, s)]
+
+
+SUFFIX_MODELS.insert(0, SUFFIX_MODELS.pop())
+
+
+def _is_res(v):
+    return isinstance(v, tuple) and len(v) > 3 and v[0] == "struct" and v[1].endswith("result::Result") and v[2] in ("Ok", "Err")
+
+
+@suffix_model(r"result::Result<T, E>::(map|map_err|and_then|or_else|ok|err|is_ok|is_err|unwrap_or|unwrap_or_else|unwrap_or_default)$")
+def m_result_combinators(ev, vals, n, s, path, gens):
+    """Result combinators on a value whose variant is known on this path"""
+    o = ev.deref_val(vals[0], s)
+    if not _is_res(o):
+        return None
+    meth = path.rsplit("::", 1)[1]
+    is_ok = o[2] == "Ok"
+    x = o[3][0][1]
+    R = "core::result::Result"
+
+    def call(f, args):
+        if isinstance(f, tuple) and f and f[0] == "clo":
+            return ev.inline_fn(f[1], list(args), n, s)
+        return None
+
+    def wrap(var, r):
+        return None if r is None else [(struct(R, var, (("0", v),)), st) for v, st in r]
+    if meth == "is_ok":
+        return [(T.TRUE if is_ok else T.FALSE, s)]
+    if meth == "is_err":
+        return [(T.FALSE if is_ok else T.TRUE, s)]
+    if meth == "ok":
+        return [(some(x) if is_ok else NONE, s)]
+    if meth == "err":
+        return [(NONE if is_ok else some(x), s)]
+    if meth == "map":
+        return wrap("Ok", call(vals[1], [x])) if is_ok else [(o, s)]
+    if meth == "map_err":
+        return [(o, s)] if is_ok else wrap("Err", call(vals[1], [x]))
+    if meth == "and_then":
+        return call(vals[1], [x]) if is_ok else [(o, s)]
+    if meth == "or_else":
+        return [(o, s)] if is_ok else call(vals[1], [x])
+    if meth == "unwrap_or":
+        return [(x if is_ok else vals[1], s)]
+    if meth == "unwrap_or_else":
+        return [(x, s)] if is_ok else call(vals[1], [x])
     return None
 
 
@@ -1603,7 +1923,7 @@ def m_map_get(ev, vals, n, s, path, gens):
     return None
 
 
-@suffix_model(r"string::ToString>::to_string$|ToString::to_string$|String::as_str$|string::String as core::ops::Deref>::deref$|str::<impl str>::to_string$|String::from$")
+@suffix_model(r"string::ToString>::to_string$|ToString::to_string$|String::as_str$|string::String as core::ops::Deref>::deref$|str::<impl str>::to_string$|String::from$|string::String as core::convert::From<&str>>::from$|string::String as core::convert::From<&core::string::String>>::from$")
 def m_to_string(ev, vals, n, s, path, gens):
     v = ev.deref_val(vals[0], s)
     if isinstance(v, tuple) and v and v[0] in ("lit", "fmt"):
@@ -1683,6 +2003,8 @@ def m_format(ev, vals, n, s, path, gens):
             out.append(str(value[1]) if spec == "" else repr(value[1]))
         elif isinstance(value, tuple) and value and value[0] == "fmt" and spec == "":
             out.extend(value[1])
+        elif isinstance(value, tuple) and T.is_k(value) and spec == "" and ty == "char":
+            out.append(chr(value[2]))
         elif isinstance(value, tuple) and T.is_k(value) and spec == "":
             sv = T.sval(value) if (ty or "").startswith("i") else value[2]
             out.append(str(sv))
